@@ -145,6 +145,9 @@ const BURN: &[(Val, Spk)] = &[(Val::Rest, Spk::OpReturn)];
 const ZERO_FIRST: &[(Val, Spk)] = &[(Val::Sats(0), Spk::A), (Val::Rest, Spk::A)];
 const ALL_FEE: &[(Val, Spk)] = &[(Val::Sats(0), Spk::OpReturn)];
 const F0: Fee = Fee::Sats(0);
+/// a pointer envelope ahead of 39 plain ones in one input: 40 floating inscriptions, 39 of them tied on offset 0
+/// (more than the 32 elements up to which the standard library sorts by insertion)
+const PTR_THEN_39: &[Env] = &[Env::Pointer(Ptr::SecondOutput), Env::Png, Env::Png, Env::Text, Env::Png, Env::Png, Env::Text, Env::Png, Env::Png, Env::Text, Env::Png, Env::Png, Env::Text, Env::Png, Env::Png, Env::Text, Env::Png, Env::Png, Env::Text, Env::Png, Env::Png, Env::Text, Env::Png, Env::Png, Env::Text, Env::Png, Env::Png, Env::Text, Env::Png, Env::Png, Env::Text, Env::Png, Env::Png, Env::Text, Env::Png, Env::Png, Env::Text, Env::Png, Env::Png, Env::Text];
 
 pub const TEMPLATES: &[Template] = &[
   // --- reveals on a fresh output ---
@@ -174,6 +177,9 @@ pub const TEMPLATES: &[Template] = &[
   t!("reveal-gallery", &[In::Own], &[(0, &[Env::Gallery])], ONE_A, F0, false),
   t!("reveal-delegate", &[In::Own], &[(0, &[Env::DelegateInsc0])], ONE_A, F0, false),
   t!("reveal-even-unknown-then-png", &[In::Own], &[(0, &[Env::EvenUnknown, Env::Png])], ONE_A, F0, false),
+  t!("reveal-png-then-even-unknown", &[In::Own], &[(0, &[Env::Png, Env::EvenUnknown])], ONE_A, F0, false),
+  t!("reveal-even-unknown-second-input", &[In::Own, In::Own2], &[(1, &[Env::EvenUnknown])], ONE_A, F0, false),
+  t!("reveal-40-ptr-first", &[In::Own], &[(0, PTR_THEN_39)], SPLIT, F0, false),
   t!("reveal-even-unknown-dupfield", &[In::Own], &[(0, &[Env::EvenUnknownDup])], ONE_A, F0, false),
   t!("reveal-even-unknown-ptr", &[In::Own], &[(0, &[Env::EvenUnknownPtr])], SPLIT, F0, false),
   t!("reveal-even-unknown-incomplete", &[In::Own], &[(0, &[Env::EvenUnknownIncomplete])], ONE_A, F0, false),
@@ -431,7 +437,7 @@ impl Worker {
     if !self.snapshots.contains_key(&label) {
       let dir = self.scratch.sub(&format!("snap-{label}"));
       let index = idx::open(&self.world, &dir, cfg)?;
-      index.update()?;
+      util::watched(|| index.update())?;
       drop(index);
       self.snapshots.insert(label.clone(), dir);
     }
@@ -1147,6 +1153,7 @@ pub fn exec(w: &mut Worker, cfg: &IndexCfg, layout: &Layout, jubilee: u32, choic
 
 /// `batch`: all enumerated blocks are indexed by ONE update() call (one commit), audited once at the end.
 pub fn exec_mode(w: &mut Worker, cfg: &IndexCfg, layout: &Layout, jubilee: u32, choices: &Choices, events: bool, batch: bool) -> Exec {
+  util::set_context(json!({"suite": "inscriptions", "cfg": cfg.label(), "base": w.base, "choices": choices, "templates": layout.templates, "shapes": layout.shapes, "slots": layout.slots, "one_update": batch}).to_string());
   let mut e = Exec::default();
   let Some((blocks, rendered)) = build_history(w, layout, choices, 0) else {
     e.disabled = true;
@@ -1185,7 +1192,7 @@ pub fn exec_mode(w: &mut Worker, cfg: &IndexCfg, layout: &Layout, jubilee: u32, 
     if batch && bi + 1 < nblocks {
       continue;
     }
-    match util::catch(|| index.update()) {
+    match util::catch(|| util::watched(|| index.update())) {
       Ok(Ok(())) => {}
       Ok(Err(err)) => {
         e.fail("C16", "update/error", format!("Index::update returned an error on a valid chain: {err:#}"));
@@ -1255,6 +1262,11 @@ pub const DENSE: &[(&str, DenseSpec)] = &[
     (&["reveal-png"], "full"),
     (&["move-insc0", "reveal-zero-value-input", "reveal-png"], "full"),
     (&["reveal-13-inputs", "move-insc0-behind-own"], "underpay-fees"),
+  ]),
+  ("moved-parent-named-by-later-reveal", &[
+    (&["reveal-png", "reveal-png"], "full"),
+    (&["move-insc0", "child-of-insc0-not-spent", "reveal-40-ptr-first"], "full"),
+    (&["insc0-to-fee", "child-of-insc0-not-spent", "reveal-png-then-even-unknown"], "underpay-fees"),
   ]),
   ("dense-1", &[
     (&["reveal-png", "reveal-two-same-input"], "full"),
